@@ -10,80 +10,6 @@ def region(name):
 
 
 # ---------------------------------------------------------------------------------------------------
-# C15 (evaluation is pure).  An oracle input is {"fn", "seed"} or {"fn", "lit"}; the arguments are
-# regenerated with harness/props/c15.make_args and bound to the parameter names.
-
-def _c15_bound(inp):
-    import inspect
-    from props import c15
-    f = c15.get_function(inp["fn"])
-    args, kwargs = c15.make_args(inp)
-    ba = inspect.signature(f).bind_partial(*args, **kwargs)
-    out = dict(ba.arguments)
-    for p in inspect.signature(f).parameters.values():
-        if p.kind == p.VAR_KEYWORD and p.name in out:
-            out.update(out.pop(p.name))
-        elif p.name not in out and p.default is not p.empty:
-            out[p.name] = p.default
-    return out
-
-
-@region("c15_voicing_given")
-def c15_voicing_given(inp):
-    """melody.freq_to_voicing writes `voicing[frequencies == 0] = 0` into the caller's array"""
-    return _c15_bound(inp).get("voicing") is not None
-
-
-@region("c15_est_voicing_or_ref_reward_given")
-def c15_est_voicing_or_ref_reward_given(inp):
-    """melody.to_cent_voicing / melody.evaluate hand the caller's est_voicing / ref_reward to freq_to_voicing"""
-    a = _c15_bound(inp)
-    return a.get("est_voicing") is not None or a.get("ref_reward") is not None
-
-
-@region("c15_labels_not_resliced")
-def c15_labels_not_resliced(inp):
-    """util.adjust_intervals / adjust_events: `labels` is still the caller's list when insert/append runs:
-    labels given and (t_min is None or nothing ends at/after t_min)"""
-    import numpy as np
-    a = _c15_bound(inp)
-    if a.get("labels") is None:
-        return False
-    t_min = a.get("t_min")
-    if t_min is None:
-        return True
-    if "intervals" in a:
-        return not bool((np.asarray(a["intervals"])[:, 1] >= t_min).any())
-    return not bool((np.asarray(a["events"]) >= t_min).any())
-
-
-@region("c15_estimate_before_reference")
-def c15_estimate_before_reference(inp):
-    """chord.evaluate: every estimated interval ends before the reference starts, so adjust_intervals appends
-    to the caller's est_labels"""
-    import numpy as np
-    a = _c15_bound(inp)
-    return not bool((np.asarray(a["est_intervals"])[:, 1] >= np.asarray(a["ref_intervals"]).min()).any())
-
-
-@region("c15_silent_window")
-def c15_silent_window(inp):
-    """separation.bss_eval_images_framewise (also through separation.evaluate): at least two windows and one of
-    them has a silent source, so `isr[:, k]` is never written"""
-    import numpy as np
-    a = _c15_bound(inp)
-    ref = np.atleast_3d(a["reference_sources"])
-    est = np.atleast_3d(a["estimated_sources"])
-    window = a.get("window", 30 * 44100)
-    hop = a.get("hop", 15 * 44100)
-    nwin = int(np.floor((ref.shape[1] - window + hop) / hop))
-    if nwin < 2:
-        return False
-
-    def silent(s):
-        return bool(np.any(np.all(np.sum(s, axis=tuple(range(2, s.ndim))) == 0, axis=1)))
-    for k in range(nwin):
-        sl = slice(k * hop, k * hop + window)
-        if silent(ref[:, sl, :]) or silent(est[:, sl, :]):
-            return True
-    return False
+# C15 (evaluation is pure): all findings of this slice were repaired by `fix:` commits (c44e6a6, aa0fc9a,
+# b910d54); their entries in known_findings.json are "fixed" (the region names there are labels only), so no
+# region predicate is needed any more.
